@@ -37,7 +37,8 @@ def regenerate(run):
 
 RULE = ("histories of 3-25 operations over real InterfaceClass / Declaration / implementedBy(cls) / "
         "providedBy(ob) / providedBy(cls) / held implementedBy|providedBy(super(T, C)) objects with __bases__ reassignments at every kind of node, "
-        "classImplements and garbage collection of leaves; after every operation all pairs are queried, each "
+        "classImplements, nested __bases__ assignments made by a subscribed dependent from inside a running propagation, "
+        "and garbage collection of leaves; after every operation all pairs are queried, each "
         "specification first being re-asked the isOrExtends question it last answered yes to (before a __bases__ "
         "assignment: one whose answer is about to turn to no). "
         "A history is non-trivial when some __bases__ reassignment hits a node that has at least two "
@@ -182,15 +183,31 @@ def _history(rng, nops, template):
         sim.perm[c] |= set(fs)
         sim.edges[c] = set()
 
-    def rebase(x):
+    def rebase(x, nested=True):
         cands = [b for b in sim.live() if b != x and not sim.reaches(b, x)]
         w = []
         for b in cands:
             w += [b] * (4 if sim.kind[b] == "iface" else 1)
         w += [ROOT, ROOT, IMPLOBJ]
         out = _pick(rng, w, 3, dup=0.04)
-        ops.append({"op": "setbases", "node": x, "bases": out})
+        o = {"op": "setbases", "node": x, "bases": out}
+        ops.append(o)
         sim.edges[x] = set(out)
+        if nested and rng.random() < 0.22:
+            # a reactor on x or on something below it re-bases another node from inside the propagation
+            below = [h for h in sim.live() if h != x and sim.reaches(h, x)]
+            on = rng.choice([x] + below + below)
+            targets = [h for h in sim.live() if h != x and sim.kind[h] != "super"]
+            if targets:
+                a = rng.choice(targets)
+                cands = [b for b in sim.live() if b != a and not sim.reaches(b, a)]
+                w2 = []
+                for b in cands:
+                    w2 += [b] * (4 if sim.kind[b] == "iface" else 1)
+                w2 += [ROOT, IMPLOBJ]
+                nb = _pick(rng, w2, 2)
+                o["reactor"] = {"on": on, "node": a, "bases": nb}
+                sim.edges[a] = sim.edges[a] | set(nb)     # it may or may not fire: keep both
 
     if template:
         top = iface(rng.choice([[], [ROOT], [ROOT]]))
@@ -335,7 +352,7 @@ def _steps(case, obs):
                 bs = want if (want is not None and p[1] == st["node"] and op["op"] != "setbases") else p[3]
                 mops.append("NewSpec n%d %s %s" % (p[1], C.cbool(p[2] == "iface"), _l(bs)))
             elif p[0] == "set":
-                bs = want if (want is not None and op["op"] == "setbases") else p[2]
+                bs = want if (want is not None and op["op"] == "setbases" and p[1] == st["node"]) else p[2]
                 mops.append("SetBases n%d %s" % (p[1], _l(bs)))
             else:
                 mops.append("Drop n%d" % p[1])
@@ -527,7 +544,14 @@ def replay_text(case, obs, mode):
         elif t == "classimpl":
             lines.append("classImplements(K[%d], *%s)" % (o["cls"], fs))
         elif t == "setbases":
+            if "reactor" in o:
+                r = o["reactor"]
+                lines.append("class R:\n    armed = True\n    def changed(self, spec):\n        if self.armed:\n"
+                             "            self.armed = False; H[%d].__bases__ = tuple(H[b] for b in %r)\n"
+                             "r = R(); H[%d].subscribe(r)" % (r["node"], r["bases"], r["on"]))
             lines.append("H[%d].__bases__ = %s" % (o["node"], bs))
+            if "reactor" in o:
+                lines.append("H[%d].unsubscribe(r); r.armed = False" % o["reactor"]["on"])
         elif t == "drop":
             lines.append("H.pop(%d, None); K.pop(%d, None); O.pop(%d, None); gc.collect()" % (o["node"], o["node"], o["node"]))
         if t in CREATING:
